@@ -10,6 +10,7 @@ package secp256k1
 
 import (
 	"crypto"
+	_ "crypto/sha256" // links and registers SHA-256, which crypto.SHA256.New() looks up
 	"encoding/binary"
 	"errors"
 	"hash"
